@@ -109,6 +109,354 @@ package fs
 //@   requires e != nil
 //@   ensures result == len(deref(e))
 
+// ---- ISO 9660 encoder: every append grows the buffer by an exact amount and keeps what was written --
+//
+// grown(e, n): the buffer e points to is n bytes longer and its former content is unchanged.
+
+// (Quantified over the absolute index x of the new backing array, so that the solver's trigger is the
+// whole index term; the old content is addressed through old(inner(..)) / old(base(..)).)
+//@ pred kept(e *iso9660encoder) := forall x {raw(deref(e), x)} :: base(deref(e)) <= x && x < base(deref(e)) + old(len(deref(e))) ==> raw(deref(e), x) == old(inner(deref(e)))[old(base(deref(e))) + x - base(deref(e))]
+// A grown buffer lives in a new backing array (the engine models append without sharing of spare
+// capacity), so later writes into it touch nothing the caller could see through another slice.
+//@ pred grown(e *iso9660encoder, n int) := len(deref(e)) == old(len(deref(e))) + n && kept(e) && ((fresh(deref(e).$arr) && base(deref(e)) == 0) || deref(e) == old(deref(e)))
+// the bytes appended by the call, as the byte at absolute index x of the new backing array
+//@ spec newat(e *iso9660encoder, x int) int = x - base(deref(e)) - old(len(deref(e)))
+
+//@ func iso9660encoder.appendByte
+//@   tags C04,C08
+//@   alloc (1<<62) * 4
+//@   requires e != nil
+//@   modifies deref(e)
+//@   ensures grown(e, 1) && raw(deref(e), base(deref(e)) + old(len(deref(e)))) == b
+
+//@ func iso9660encoder.setByteAt
+//@   tags C04,C08
+//@   requires e != nil && 0 <= pos && pos < len(deref(e))
+//@   modifies elems(deref(e))
+//@   ensures raw(deref(e), base(deref(e)) + pos) == b && (forall x {raw(deref(e), x)} :: x != base(deref(e)) + pos ==> raw(deref(e), x) == old(raw(deref(e), x)))
+
+//@ func iso9660encoder.appendUint16
+//@   tags C04,C08
+//@   alloc (1<<62) * 4
+//@   requires e != nil && encoding != nil
+//@   modifies deref(e)
+//@   let n = old(len(deref(e)))
+//@   ensures grown(e, 2)
+//@   ensures typeis(encoding, "binary.littleEndian") ==> le16(inner(deref(e)), base(deref(e)) + n) == v
+//@   ensures typeis(encoding, "binary.bigEndian") ==> be16(inner(deref(e)), base(deref(e)) + n) == v
+
+//@ func iso9660encoder.appendUint16LSBMSB
+//@   tags C04,C08
+//@   alloc (1<<62) * 4
+//@   requires e != nil
+//@   modifies deref(e)
+//@   let n = old(len(deref(e)))
+//@   ensures grown(e, 4)
+//@   ensures[C08] le16(inner(deref(e)), base(deref(e)) + n) == v && be16(inner(deref(e)), base(deref(e)) + n + 2) == v @both-byte-orders-agree
+
+//@ func iso9660encoder.appendUint32
+//@   tags C04,C08
+//@   alloc (1<<62) * 4
+//@   requires e != nil && encoding != nil
+//@   modifies deref(e)
+//@   let n = old(len(deref(e)))
+//@   ensures grown(e, 4)
+//@   ensures typeis(encoding, "binary.littleEndian") ==> le32(inner(deref(e)), base(deref(e)) + n) == v
+//@   ensures typeis(encoding, "binary.bigEndian") ==> be32(inner(deref(e)), base(deref(e)) + n) == v
+
+//@ func iso9660encoder.appendUint32LSBMSB
+//@   tags C04,C08
+//@   alloc (1<<62) * 4
+//@   requires e != nil
+//@   modifies deref(e)
+//@   let n = old(len(deref(e)))
+//@   ensures grown(e, 8)
+//@   ensures[C08] le32(inner(deref(e)), base(deref(e)) + n) == v && be32(inner(deref(e)), base(deref(e)) + n + 4) == v @both-byte-orders-agree
+
+//@ func iso9660encoder.appendBytes
+//@   tags C04,C08
+//@   alloc (1<<62) * 4
+//@   requires e != nil
+//@   modifies deref(e)
+//@   ensures grown(e, len(b)) && (forall x {raw(deref(e), x)} :: 0 <= newat(e, x) && newat(e, x) < len(b) ==> raw(deref(e), x) == b[newat(e, x)])
+
+//@ func iso9660encoder.appendZeroes
+//@   tags C04,C08
+//@   alloc (1<<62) * 4
+//@   requires e != nil && 0 <= size && size < 1<<31
+//@   modifies deref(e)
+//@   ensures grown(e, size) && (forall x {raw(deref(e), x)} :: 0 <= newat(e, x) && newat(e, x) < size ==> raw(deref(e), x) == 0)
+
+//@ func iso9660encoder.appendZeroSectors
+//@   tags C04,C08
+//@   alloc (1<<62) * 4
+//@   requires e != nil && 0 <= size && size < 1<<20
+//@   modifies deref(e)
+//@   ensures grown(e, 2048 * size) && (forall x {raw(deref(e), x)} :: 0 <= newat(e, x) && newat(e, x) < 2048 * size ==> raw(deref(e), x) == 0)
+
+//@ func iso9660encoder.padLastSector
+//@   tags C04,C08
+//@   alloc (1<<62) * 4
+//@   requires e != nil
+//@   modifies deref(e)
+//@   ensures[C08] len(deref(e)) % 2048 == 0 && len(deref(e)) >= old(len(deref(e))) && len(deref(e)) < old(len(deref(e))) + 2048 @padded-to-a-sector-boundary
+//@   ensures kept(e)
+//@   ensures[C08] forall x {raw(deref(e), x)} :: 0 <= newat(e, x) && x < base(deref(e)) + len(deref(e)) ==> raw(deref(e), x) == 0 @padding-is-zero
+
+//@ func iso9660encoder.appendBytesFixed
+//@   tags C04,C08
+//@   alloc (1<<62) * 4
+//@   requires e != nil && fixedLen < 1<<31
+//@   requires fixedLen > 0 ==> len(b) <= fixedLen @fits-the-field
+//@   modifies deref(e)
+//@   ensures grown(e, fixedLen > 0 ? fixedLen : len(b))
+
+//@ func iso9660encoder.appendString
+//@   tags C04,C08
+//@   alloc (1<<62) * 4
+//@   requires e != nil && fixedLen < 1<<31
+//@   requires fixedLen > 0 ==> len(s) <= fixedLen @fits-the-field
+//@   modifies deref(e)
+//@   let n = old(len(deref(e)))
+//@   ensures grown(e, fixedLen > 0 ? fixedLen : len(s))
+//@   ensures forall x {raw(deref(e), x)} :: 0 <= newat(e, x) && newat(e, x) < len(s) ==> raw(deref(e), x) == s[newat(e, x)]
+//@   ensures forall x {raw(deref(e), x)} :: len(s) <= newat(e, x) && x < base(deref(e)) + len(deref(e)) ==> raw(deref(e), x) == padding
+//@   loop 1 invariant len(deref(e)) == n + fixedLen && start == n + len(s) && start <= i && deref(e) == pre(deref(e)) && (forall x {raw(deref(e), x)} :: base(deref(e)) <= x && x < base(deref(e)) + start ==> raw(deref(e), x) == pre(raw(deref(e), x))) && (forall x {raw(deref(e), x)} :: base(deref(e)) + start <= x && x < base(deref(e)) + i ==> raw(deref(e), x) == padding)
+
+//@ func iso9660encoder.appendStrA
+//@   tags C04,C08
+//@   alloc (1<<62) * 4
+//@   requires e != nil && fixedLen < 1<<31 && (fixedLen > 0 ==> len(s) <= fixedLen)
+//@   modifies deref(e)
+//@   ensures grown(e, fixedLen > 0 ? fixedLen : len(s))
+
+//@ func iso9660encoder.appendStrD
+//@   tags C04,C08
+//@   alloc (1<<62) * 4
+//@   requires e != nil && fixedLen < 1<<31 && (fixedLen > 0 ==> len(s) <= fixedLen)
+//@   modifies deref(e)
+//@   ensures grown(e, fixedLen > 0 ? fixedLen : len(s))
+
+//@ func iso9660encoder.appendStrD1
+//@   tags C04,C08
+//@   alloc (1<<62) * 4
+//@   requires e != nil && fixedLen < 1<<31 && (fixedLen > 0 ==> len(s) <= fixedLen)
+//@   modifies deref(e)
+//@   let n = old(len(deref(e)))
+//@   ensures grown(e, fixedLen > 0 ? fixedLen : len(s))
+//@   ensures forall x {raw(deref(e), x)} :: 0 <= newat(e, x) && newat(e, x) < len(s) ==> raw(deref(e), x) == s[newat(e, x)]
+
+// ---- ISO 9660 structures: every encoder writes exactly the size of its structure ------------------
+
+// fmt's width rules for %04d / %02d are not modelled: ASSUMED that the seven fields print as 16 digits
+// when each lies in the range of its width.
+//@ func iso9660encoder.appendFormat
+//@   tags C04,C08
+//@   trusted
+//@   requires e != nil
+//@   modifies deref(e)
+//@   ensures kept(e) && len(deref(e)) >= old(len(deref(e)))
+
+//@ pred tsOK(ts *volumeDescriptorTimestamp) := 0 <= ts.Year && ts.Year <= 9999 && 0 <= ts.Month && ts.Month <= 99 && 0 <= ts.Day && ts.Day <= 99 && 0 <= ts.Hour && ts.Hour <= 99 && 0 <= ts.Minute && ts.Minute <= 99 && 0 <= ts.Second && ts.Second <= 99 && 0 <= ts.Hundredth && ts.Hundredth <= 99
+//@ func volumeDescriptorTimestamp.encode
+//@   tags C04,C08
+//@   trusted
+//@   requires ts != nil && enc != nil && tsOK(ts) @fields-fit-their-digit-count
+//@   modifies deref(enc)
+//@   ensures grown(enc, 17)
+
+//@ func volumeDescriptorTimestampFromTime results(r)
+//@   tags C04,C08
+//@   requires yearok(t) @year-has-four-digits
+//@   ensures 0 <= r.Year && r.Year <= 9999 && 1 <= r.Month && r.Month <= 12 && 1 <= r.Day && r.Day <= 31 && 0 <= r.Hour && r.Hour <= 23 && 0 <= r.Minute && r.Minute <= 59 && 0 <= r.Second && r.Second <= 59 && 0 <= r.Hundredth && r.Hundredth <= 99 && r.Offset == 0
+
+// ECMA-119 9.1.5 stores the year as one byte counted from 1900; file times outside 1900..2155 wrap
+// (declared: conv:int->uint8), which affects the displayed date only.
+//@ func recordingTimestamp.encode
+//@   tags C04,C08
+//@   alloc (1<<62) * 4
+//@   wrapok conv:int->uint8
+//@   requires enc != nil
+//@   modifies deref(enc)
+//@   ensures grown(enc, 7)
+
+//@ func volumeDescriptorHeader.encode
+//@   tags C04,C08
+//@   alloc (1<<62) * 4
+//@   requires enc != nil
+//@   modifies deref(enc)
+//@   let n = old(len(deref(enc)))
+//@   ensures grown(enc, 7)
+//@   ensures[C08] hdrAt(enc, n, vdh) @type-identifier-version-in-place
+
+// size of a directory record: 33 + identifier + pad byte for even identifiers + system use
+//@ spec deSize(idLen int, suLen int) int = 33 + idLen + (idLen + 1) % 2 + suLen
+//@ func directoryEntry.size
+//@   tags C04,C08
+//@   requires len(de.Identifier) < 1<<31 && len(de.SystemUse) < 1<<31
+//@   ensures result == deSize(len(de.Identifier), len(de.SystemUse))
+
+//@ func directoryEntry.encode
+//@   tags C04,C08
+//@   alloc (1<<62) * 4
+//@   wrapok conv:int->uint8
+//@   requires enc != nil
+//@   requires[C08] deSize(len(de.Identifier), len(de.SystemUse)) <= 255 @record-fits-its-length-byte
+//@   requires[C08] 0 <= de.ExtentLocation && 0 <= de.ExtentLength && de.ExtentLength <= 0xffffffff @extent-fits-32-bits
+//@   modifies deref(enc)
+//@   let n = old(len(deref(enc)))
+//@   ensures grown(enc, deSize(len(de.Identifier), len(de.SystemUse)))
+//@   ensures[C08] raw(deref(enc), base(deref(enc)) + n) == deSize(len(de.Identifier), len(de.SystemUse)) @length-byte-is-the-record-size
+//@   ensures[C08] le32(inner(deref(enc)), base(deref(enc)) + n + 2) == de.ExtentLocation && be32(inner(deref(enc)), base(deref(enc)) + n + 6) == de.ExtentLocation @extent-location-both-endian
+//@   ensures[C08] le32(inner(deref(enc)), base(deref(enc)) + n + 10) == de.ExtentLength && be32(inner(deref(enc)), base(deref(enc)) + n + 14) == de.ExtentLength @data-length-both-endian
+//@   ensures[C08] raw(deref(enc), base(deref(enc)) + n + 25) == de.FileFlags && raw(deref(enc), base(deref(enc)) + n + 32) == len(de.Identifier) @flags-and-identifier-length
+
+//@ spec pteSize(idLen int) int = 8 + idLen + idLen % 2
+//@ func pathTableEntry.size
+//@   tags C04,C08
+//@   requires len(e.DirIdentifier) <= 255 @identifier-length-fits-a-byte
+//@   ensures result == pteSize(len(e.DirIdentifier))
+
+//@ func pathTableEntry.encodeOrdered
+//@   tags C04,C08
+//@   alloc (1<<62) * 4
+//@   wrapok conv:int->uint8
+//@   wrapok conv:int16->uint16
+//@   requires enc != nil && order != nil
+//@   requires len(e.DirIdentifier) <= 255 @identifier-length-fits-a-byte
+//@   requires[C08] 0 <= e.DirLocation @location-is-a-sector-number
+//@   modifies deref(enc)
+//@   let n = old(len(deref(enc)))
+//@   ensures grown(enc, pteSize(len(e.DirIdentifier)))
+//@   ensures[C08] raw(deref(enc), base(deref(enc)) + n) == len(e.DirIdentifier) @identifier-length-byte
+//@   ensures[C08] typeis(order, "binary.littleEndian") ==> le32(inner(deref(enc)), base(deref(enc)) + n + 2) == e.DirLocation @L-table-location
+//@   ensures[C08] typeis(order, "binary.bigEndian") ==> be32(inner(deref(enc)), base(deref(enc)) + n + 2) == e.DirLocation @M-table-location
+
+// What an encodable value needs and how many bytes it writes, by dynamic type (the six implementations
+// of iso9660encodable). The interface contract below is what appendEncodable relies on; every
+// implementation is verified against it as well as against its own contract.
+//@ pred deOK(de *directoryEntry) := de != nil && deSize(len(de.Identifier), len(de.SystemUse)) <= 255 && 0 <= de.ExtentLocation && 0 <= de.ExtentLength && de.ExtentLength <= 0xffffffff
+//@ pred pvdOK(q *primaryVolumeDescriptorBody) := q != nil && pvdOKv(deref(q))
+//@ pred pvdOKv(p primaryVolumeDescriptorBody) := len(p.SystemIdentifier) <= 32 && len(p.VolumeIdentifier) <= 32 && len(p.EscapeSequences) <= 32
+//@   && len(p.VolumeSetIdentifier) <= 128 && len(p.PublisherIdentifier) <= 128 && len(p.DataPreparerIdentifier) <= 128 && len(p.ApplicationIdentifier) <= 128
+//@   && len(p.CopyrightFileIdentifier) <= 37 && len(p.AbstractFileIdentifier) <= 37 && len(p.BibliographicFileIdentifier) <= 37 && len(p.ApplicationUsed) <= 512
+//@   && 0 <= p.VolumeSpaceSize && 0 <= p.VolumeSetSize && p.VolumeSetSize <= 65535 && 0 <= p.LogicalBlockSize && p.LogicalBlockSize <= 65535 && 0 <= p.PathTableSize && p.PathTableSize <= 0xffffffff
+//@   && 0 <= p.TypeLPathTableLoc && 0 <= p.OptTypeLPathTableLoc && 0 <= p.TypeMPathTableLoc && 0 <= p.OptTypeMPathTableLoc
+//@   && deOK(p.RootDirectoryEntry) && deSize(len(p.RootDirectoryEntry.Identifier), len(p.RootDirectoryEntry.SystemUse)) <= 34
+//@   && tsOKv(p.VolumeCreationDateAndTime) && tsOKv(p.VolumeModificationDateAndTime) && tsOKv(p.VolumeExpirationDateAndTime) && tsOKv(p.VolumeEffectiveDateAndTime)
+//@ pred tsOKv(ts volumeDescriptorTimestamp) := 0 <= ts.Year && ts.Year <= 9999 && 0 <= ts.Month && ts.Month <= 99 && 0 <= ts.Day && ts.Day <= 99 && 0 <= ts.Hour && ts.Hour <= 99 && 0 <= ts.Minute && ts.Minute <= 99 && 0 <= ts.Second && ts.Second <= 99 && 0 <= ts.Hundredth && ts.Hundredth <= 99
+//@ pred vdOK(vd *volumeDescriptor) := vd != nil && (vd.Header.Type == 1 || vd.Header.Type == 2 || vd.Header.Type == 255) && (vd.Header.Type != 255 ==> pvdOK(vd.Primary))
+// where the checked fields of a descriptor land, relative to the start n of the structure in the buffer
+//@ pred hdrAt(e *iso9660encoder, n int, h volumeDescriptorHeader) := raw(deref(e), base(deref(e)) + n) == h.Type && raw(deref(e), base(deref(e)) + n + 1) == h.Identifier[0] && raw(deref(e), base(deref(e)) + n + 2) == h.Identifier[1] && raw(deref(e), base(deref(e)) + n + 3) == h.Identifier[2] && raw(deref(e), base(deref(e)) + n + 4) == h.Identifier[3] && raw(deref(e), base(deref(e)) + n + 5) == h.Identifier[4] && raw(deref(e), base(deref(e)) + n + 6) == h.Version
+//@ pred pvdAt(e *iso9660encoder, n int, p primaryVolumeDescriptorBody) := le32(inner(deref(e)), base(deref(e)) + n + 73) == p.VolumeSpaceSize && be32(inner(deref(e)), base(deref(e)) + n + 77) == p.VolumeSpaceSize
+//@   && le16(inner(deref(e)), base(deref(e)) + n + 121) == p.LogicalBlockSize && be16(inner(deref(e)), base(deref(e)) + n + 123) == p.LogicalBlockSize
+//@   && le32(inner(deref(e)), base(deref(e)) + n + 125) == p.PathTableSize && be32(inner(deref(e)), base(deref(e)) + n + 129) == p.PathTableSize
+//@   && le32(inner(deref(e)), base(deref(e)) + n + 133) == p.TypeLPathTableLoc && be32(inner(deref(e)), base(deref(e)) + n + 141) == p.TypeMPathTableLoc
+//@ pred vdAt(e *iso9660encoder, n int, vd volumeDescriptor) := hdrAt(e, n, vd.Header) && (vd.Header.Type != 255 ==> pvdAt(e, n + 7, deref(vd.Primary)))
+//@ pred encAt(e *iso9660encoder, n int, x ref) := (typeis(x, "fs.volumeDescriptorHeader") ==> hdrAt(e, n, deref(cast(x, "fs.volumeDescriptorHeader"))))
+//@   && (typeis(x, "*fs.primaryVolumeDescriptorBody") ==> pvdAt(e, n, deref(cast(x, "fs.primaryVolumeDescriptorBody"))))
+//@   && (typeis(x, "fs.volumeDescriptor") ==> vdAt(e, n, deref(cast(x, "fs.volumeDescriptor"))))
+//@ pred encOK(x ref) := x != nil
+//@   && (typeis(x, "fs.volumeDescriptorHeader") || typeis(x, "*fs.primaryVolumeDescriptorBody") || typeis(x, "fs.volumeDescriptor") || typeis(x, "*fs.directoryEntry") || typeis(x, "fs.discRangesSector") || typeis(x, "*fs.discInfoSector"))
+//@   && (typeis(x, "*fs.primaryVolumeDescriptorBody") ==> pvdOK(cast(x, "fs.primaryVolumeDescriptorBody")))
+//@   && (typeis(x, "fs.volumeDescriptor") ==> vdOK(cast(x, "fs.volumeDescriptor")))
+//@   && (typeis(x, "*fs.directoryEntry") ==> deOK(cast(x, "fs.directoryEntry")))
+//@   && (typeis(x, "fs.discRangesSector") ==> len(deref(cast(x, "fs.discRangesSector"))) <= 255 && (forall y {at(deref(cast(x, "fs.discRangesSector")), y).StartSector} {at(deref(cast(x, "fs.discRangesSector")), y).EndSector} :: base(deref(cast(x, "fs.discRangesSector"))) <= y && y < end(deref(cast(x, "fs.discRangesSector"))) ==> at(deref(cast(x, "fs.discRangesSector")), y).StartSector >= 0 && at(deref(cast(x, "fs.discRangesSector")), y).EndSector >= 0))
+//@   && (typeis(x, "*fs.discInfoSector") ==> len(cast(x, "fs.discInfoSector").ConsoleID) <= 16 && len(cast(x, "fs.discInfoSector").ProductID) <= 32)
+//@ spec encSize(x ref) int = typeis(x, "fs.volumeDescriptorHeader") ? 7 : (typeis(x, "*fs.primaryVolumeDescriptorBody") ? 1388 : (typeis(x, "fs.volumeDescriptor") ? 2048 : (typeis(x, "*fs.directoryEntry") ? deSize(len(cast(x, "fs.directoryEntry").Identifier), len(cast(x, "fs.directoryEntry").SystemUse)) : (typeis(x, "fs.discRangesSector") ? 8 + 8 * len(deref(cast(x, "fs.discRangesSector"))) : 512))))
+
+//@ func iso9660encodable.encode params(e)
+//@   tags C04,C08
+//@   requires e != nil && encOK(recv)
+//@   modifies deref(e)
+//@   ensures grown(e, old(encSize(recv)))
+//@   ensures[C08] encAt(e, old(len(deref(e))), recv) @checked-fields-in-place
+
+//@ func iso9660encoder.appendEncodable
+//@   tags C04,C08
+//@   alloc (1<<62) * 4
+//@   requires e != nil && encOK(enc) && fixedLen < 1<<31
+//@   requires fixedLen >= 0 ==> encSize(enc) <= fixedLen @encoded-structure-fits-its-field
+//@   modifies deref(e)
+//@   ensures grown(e, fixedLen >= 0 ? fixedLen : old(encSize(enc)))
+//@   ensures[C08] forall x {raw(deref(e), x)} :: old(encSize(enc)) <= newat(e, x) && x < base(deref(e)) + len(deref(e)) ==> raw(deref(e), x) == 0 @rest-of-the-field-is-zero
+//@   ensures[C08] encAt(e, old(len(deref(e))), enc) @checked-fields-in-place
+
+//@ func primaryVolumeDescriptorBody.encode
+//@   tags C04,C08
+//@   alloc (1<<62) * 4
+//@   wrapok conv:int32->uint32
+//@   requires enc != nil && pvdOKv(pvd)
+//@   modifies deref(enc)
+//@   let n = old(len(deref(enc)))
+//@   ensures grown(enc, 1388)
+//@   ensures[C08] pvdAt(enc, n, pvd) @checked-fields-in-place
+
+//@ func volumeDescriptor.encode
+//@   tags C04,C08
+//@   alloc (1<<62) * 4
+//@   requires enc != nil && (vd.Header.Type == 1 || vd.Header.Type == 2 || vd.Header.Type == 255) && (vd.Header.Type != 255 ==> pvdOK(vd.Primary))
+//@   modifies deref(enc)
+//@   let n = old(len(deref(enc)))
+//@   ensures grown(enc, 2048)
+//@   ensures[C08] vdAt(enc, n, vd) @header-and-checked-fields-in-place
+
+//@ func discRangesSector.encode
+//@   tags C04,C08
+//@   alloc (1<<62) * 4
+//@   requires enc != nil && len(d) <= 255
+//@   requires forall y {at(d, y).StartSector} {at(d, y).EndSector} :: base(d) <= y && y < end(d) ==> at(d, y).StartSector >= 0 && at(d, y).EndSector >= 0
+//@   modifies deref(enc)
+//@   let n = old(len(deref(enc)))
+//@   ensures grown(enc, 8 + 8 * len(d))
+//@   ensures[C08] be32(inner(deref(enc)), base(deref(enc)) + n) == len(d) @region-count
+//@   ensures[C08] len(d) == 1 ==> be32(inner(deref(enc)), base(deref(enc)) + n + 8) == d[0].StartSector && be32(inner(deref(enc)), base(deref(enc)) + n + 12) == d[0].EndSector @single-region-bounds
+//@   loop 1 invariant len(deref(enc)) == n + 8 + 8 * $idx && ((fresh(deref(enc).$arr) && base(deref(enc)) == 0)) && be32(inner(deref(enc)), base(deref(enc)) + n) == len(d) @count-kept
+//@   loop 1 invariant (forall x {raw(deref(enc), x)} :: base(deref(enc)) <= x && x < base(deref(enc)) + n ==> raw(deref(enc), x) == old(inner(deref(enc)))[old(base(deref(enc))) + x - base(deref(enc))]) @prefix-kept
+//@   loop 1 invariant $idx >= 1 && len(d) == 1 ==> be32(inner(deref(enc)), base(deref(enc)) + n + 8) == d[0].StartSector && be32(inner(deref(enc)), base(deref(enc)) + n + 12) == d[0].EndSector @first-region
+
+//@ func discInfoSector.encode
+//@   tags C04,C08
+//@   alloc (1<<62) * 4
+//@   requires d != nil && enc != nil && len(d.ConsoleID) <= 16 && len(d.ProductID) <= 32
+//@   modifies deref(enc)
+//@   let n = old(len(deref(enc)))
+//@   ensures grown(enc, 512)
+//@   ensures[C08] forall x {raw(deref(enc), x)} :: 0 <= newat(enc, x) && newat(enc, x) < len(d.ConsoleID) ==> raw(deref(enc), x) == d.ConsoleID[newat(enc, x)] @console-id-first
+//@   ensures[C08] forall x {raw(deref(enc), x)} :: 16 <= newat(enc, x) && newat(enc, x) < 16 + len(d.ProductID) ==> raw(deref(enc), x) == d.ProductID[newat(enc, x) - 16] @product-id-at-16
+
+// ---- image builder ----------------------------------------------------------------------------------
+
+// Pointers to directory records and directory items always point into the slices that hold them
+// (&entries[i], &viso.rootDir[i]); the engine represents them as (backing array, index) pairs.
+//@ interior directoryEntry dirItem
+
+// Name mapping goes through strings.Map and the x/text UTF-16 encoder: ASSUMED that every rune of the
+// input becomes one ASCII character (one byte, two in Joliet/UCS-2 form).
+//@ func mangleStrA results(r)
+//@   tags C04,C08
+//@   trusted
+//@   ensures len(r) <= (joliet ? 2 * len(in) : len(in))
+//@ func mangleStrD results(r)
+//@   tags C04,C08
+//@   trusted
+//@   ensures len(r) <= (joliet ? 2 * len(in) : len(in))
+//@ func mangleStrD1 results(r)
+//@   tags C04,C08
+//@   trusted
+//@   ensures len(r) <= (joliet ? 2 * len(in) : len(in))
+//@ func makeIdentifier results(r)
+//@   tags C04,C08
+//@   trusted
+//@   ensures len(r) <= (joliet ? 2 * len(name) : len(name))
+
+//@ func VirtualISO.calculateSizes
+//@   tags C04,C08
+//@   requires viso != nil && 0 <= filesLBA && 0 <= viso.filesSizeSectors && filesLBA + viso.filesSizeSectors <= 0x7fffffff - 64 @volume-fits-31-bit-sector-numbers
+//@   modifies viso.volumeSizeSectors, viso.totalSize, viso.padAreaStart, viso.padAreaSize
+//@   ensures[C08] viso.totalSize == 2048 * viso.volumeSizeSectors && viso.volumeSizeSectors % 32 == 0 @whole-sectors-and-announced-size-agree
+//@   ensures[C08] viso.padAreaStart == 2048 * (filesLBA + viso.filesSizeSectors) && viso.padAreaSize >= 65536 && viso.padAreaSize < 131072 && viso.totalSize == viso.padAreaStart + viso.padAreaSize @padding-after-the-last-file
+
 // ---- generated image: data-structure invariant and abstract view (C09, C07, C04) ----------------
 //
 // Quantifiers over the file list range over ABSOLUTE indices y of the backing array
